@@ -237,6 +237,25 @@ PROPS["C10"] = {
     "units": [U("TestVerif_C10_Watcher", "./pkg/ethereum", R(300, shards=8, timeout=900, shrinktime="60s"), R(4000, shards=16, timeout=1500, shrinktime="120s"), replay_tries=3)],
 }
 
+_ALPH_RULE = ("the real Watcher.Run under a supervisor against a simulated Alephium node (http.RoundTripper), 1 ms poll interval, stepped one operation at a time: "
+              "token-bridge and foreign-caller messages (transfer / attestation confirmed, contradicted or unanswerable by the token contract / other / empty payload), "
+              "consistency level 0..255, blocks old enough or too recent for the wall-clock floor, look-alike events of other contracts in the same transaction, malformed events "
+              "(wrong field count, out-of-range values, bad hex, wrong types, other event index), bursts with further events appended right after a count request, page size 1..100, "
+              "height advancing by 1..300, blocks orphaned with or without re-inclusion of the transaction")
+PROPS["C08"] = {
+    "rule": _ALPH_RULE + ", re-observation requests and node API errors on any endpoint; non-trivial = hostile / orphaned / look-alike events present and at least one message forwarded",
+    "assumptions": ["safety is judged against the simulator's ground truth and its response log (last main-chain and height answers before the message arrived)",
+                    "block timestamps are kept 60 s away from every wall-clock threshold", "field fidelity is C11's job"],
+    "units": [U("TestVerif_C08_Watcher", ALPH, R(200, shards=8, timeout=900, shrinktime="60s"), R(3000, shards=16, timeout=1500, shrinktime="120s"), replay_tries=3, crash_is_violation=True)],
+}
+PROPS["C09"] = {
+    "rule": _ALPH_RULE + "; no injected faults; after the script the chain height rises by 260 and every well-formed token-bridge message in a main-chain block must have been forwarded exactly once by the polling "
+            "path; at no time more than 200 page requests without a count request, no exit of Run, no process crash; non-trivial = hostile events or an append between count and page request, and at least one message forwarded",
+    "assumptions": ["'eventually' is replaced by a bound: three further poll rounds after the closing height jump", "events that exist before the watcher's first count request are out of scope (it starts from the current count)",
+                    "API faults make Run exit by design and are exercised under C08's safety oracle only"],
+    "units": [U("TestVerif_C09_Watcher", ALPH, R(200, shards=8, timeout=900, shrinktime="60s"), R(3000, shards=16, timeout=1500, shrinktime="120s"), replay_tries=3, crash_is_violation=True)],
+}
+
 def setup():
     """MANIFEST.setup_cmd: create stubs and warm the build cache for every harness binary."""
     work = os.path.join(vdriver.WORKROOT, "setup-%d" % os.getpid())
